@@ -25,6 +25,9 @@ Checks (one per clause, so that one red clause does not hide the others):
   C17/markup-decompose-empty-parts  the same on trees that contain '' / b'' / [] parts
   C17/text-cell-attrs               Text(markup) x size x wrap x align x encoding x str/bytes: per-cell oracle
   C17/text-cell-attrs-empty-parts   the same for markup containing an empty string part
+  C17/canvas-clip-attrs             every column window of a rendered text row, reached through TextCanvas.content(trim_left,
+                                    cols), CompositeCanvas.pad_trim_left_right, the parts of a widget beside an Overlay and a
+                                    Padding in 'clip' mode: column-grid oracle (incl. the blank of a cut double-width character)
   C17/attr-map-compose              chains of AttrMap / AttrWrap / Padding, focus on/off, hashable names
   C17/raw-attrspec-escape           _attrspec_to_escape decoded == AttrSpec fields (all colours per depth)
   C17/raw-palette-draw              palette (all tuple forms) x depth x bright_is_bold x call order, observed in
@@ -75,8 +78,8 @@ import os
 import time
 import warnings
 
-from urwid import AttrMap, AttrWrap, Padding, Text
-from urwid.canvas import CanvasCache
+from urwid import AttrMap, AttrWrap, Filler, Overlay, Padding, SolidFill, Text
+from urwid.canvas import CanvasCache, CompositeCanvas
 from urwid.display.common import AttrSpec
 from urwid.util import decompose_tagmarkup, get_encoding, set_encoding
 
@@ -655,6 +658,246 @@ def run_text_checks(tier, r):
         chk.nontrivial = range(chk.evaluations)  # every case key (text, family, size, wrap, align) is distinct by construction
         out.append(chk.result())
     return out
+
+
+# ======================================================================================================
+# C17/canvas-clip-attrs
+#
+# "clipping ... never shift[s] an attribute onto a neighbouring character", for the clipping done on CANVASES (the text
+# checks above clip in the layout only).  One text row is rendered once; then every view [L, R) of its columns is taken
+# through each route that cuts a text canvas (all of them end in TextCanvas.content(trim_left, cols) ->
+# util.trim_text_attr_cs) and judged against a column grid written from the markup alone:
+#   column c of the unclipped row belongs to source character k(c) (WIDTH model above) or is padding;
+#   a view shows, column for column, the same characters: a character that is wholly inside carries the attribute of its
+#   innermost tag; a source space its own; padding None; a double-width character with only ONE of its two columns in
+#   the view is shown as one blank that still belongs to it: it carries an attribute of the cut cluster (the character
+#   or a zero-width character attached to it, the reading fixed in the module docstring) -- never a neighbour's;
+#   zero-width characters that are shown carry their own attribute.
+# Routes: 'content' canv.content(trim_left=L, cols=R-L); 'composite' CompositeCanvas(canv).pad_trim_left_right(-L, R-W);
+# 'overlay' a `t`-column SolidFill laid over columns [l, l+t) of the row (both remaining parts are views of the bottom
+# canvas); 'padding-clip' Padding(Text, width='clip', align=a) rendered narrower than the text (the window is
+# [0, m) for 'left', [width-m, width) for 'right'; for 'center' any window of m columns is accepted).
+
+CLIP_ROUTES = ("content", "composite", "overlay", "padding-clip")
+TOP_MARK = b"X"  # the Overlay's top widget: no character of POOLS
+
+
+def clip_grid(chars):
+    """owner[c] = source index of the character occupying column c; first[k] = first column of character k."""
+    owner, first = [], []
+    for k, ch in enumerate(chars):
+        first.append(len(owner))
+        owner += [k] * WIDTH[CLASS_OF[ch]]
+    return owner, first
+
+
+def judge_clip_row(row, plan, chars, ref, forms, owner, first):
+    """row: one content() row; plan[i] = source column shown at column i of the row, -1 for a padding column of the
+    unclipped row (beyond the text), None for a column of the Overlay's top widget.  Returns None or a why-string."""
+    by_bytes = {(TOP_MARK, None): -1}
+    for i, (b, cs) in enumerate(forms):
+        if chars[i] != " ":
+            by_bytes[(b, cs)] = i
+    units, why = parse_row(row, by_bytes, None)
+    if units is None:
+        return why
+
+    def src_at(i):
+        return plan[i] if 0 <= i < len(plan) else None
+
+    c = 0
+    for u in units:
+        if c >= len(plan) and not (u["kind"] == "char" and u["src"] >= 0 and WIDTH[CLASS_OF[chars[u["src"]]]] == 0):
+            return f"the row is wider than the {len(plan)} columns of the view"
+        if u["kind"] == "char" and u["src"] == -1:
+            if src_at(c) is not None:
+                return f"column {c} shows the top widget where the bottom widget should be seen"
+            if not same(u["attr"], "top"):
+                return f"column {c}: the top widget carries {u['attr']!r}"
+            c += 1
+            continue
+        if u["kind"] == "char":
+            k = u["src"]
+            w = WIDTH[CLASS_OF[chars[k]]]
+            if not same(u["attr"], ref[k]):
+                return f"column {c}: character {chars[k]!r} (source index {k}) should carry {ref[k]!r}, carries {u['attr']!r}"
+            if u["cs"] != forms[k][1]:
+                return f"column {c}: character {chars[k]!r} has character set {u['cs']!r}"
+            if w and [src_at(c + d) for d in range(w)] != [first[k] + d for d in range(w)]:
+                return f"column {c}: character {chars[k]!r} (source columns {first[k]}..{first[k] + w - 1}) is shown where source columns {[src_at(c + d) for d in range(w)]} belong"
+            c += w
+            continue
+        # a blank
+        sc = src_at(c)
+        if sc is None:
+            return f"column {c} is blank where the top widget should be seen"
+        if sc == -1 or sc >= len(owner):
+            if u["attr"] is not None:
+                return f"column {c}: padding carries {u['attr']!r}"
+        else:
+            k = owner[sc]
+            if chars[k] == " ":
+                if not same(u["attr"], ref[k]):
+                    return f"column {c}: the space at source index {k} should carry {ref[k]!r}, carries {u['attr']!r}"
+            elif CLASS_OF[chars[k]] == "w":
+                whole = (src_at(c + 1) == sc + 1) if sc == first[k] else (src_at(c - 1) == sc - 1)
+                if whole:
+                    return f"column {c}: a blank stands where the double-width character {chars[k]!r} is wholly visible"
+                allowed = [ref[j] for j in cut_cluster(chars, k)]
+                if not any(same(u["attr"], a) for a in allowed):
+                    return f"column {c}: the blank standing for the cut double-width character {chars[k]!r} (source index {k}) carries {u['attr']!r}, not an attribute of that character ({allowed!r})"
+            else:
+                return f"column {c}: a blank stands where character {chars[k]!r} should be seen"
+        c += 1
+    if c != len(plan):
+        return f"the runs cover {c} columns of a {len(plan)}-column view"
+    return None
+
+
+def clip_views(route, markup, width, total, param):
+    """The rows to judge for one route and parameter: yields (row, plan).  `width` = columns of the text, `total` =
+    columns of the rendered canvas (text + padding)."""
+    def window(lo, hi):
+        return [c if c < width else -1 for c in range(lo, hi)]
+
+    if route == "content":
+        lo, hi = param
+        canv = Text(markup).render((total,))
+        (row,) = list(canv.content(trim_left=lo, cols=hi - lo))
+        yield list(row), window(lo, hi)
+    elif route == "composite":
+        lo, hi = param
+        cc = CompositeCanvas(Text(markup).render((total,)))
+        cc.pad_trim_left_right(-lo, hi - total)
+        (row,) = list(cc.content())
+        yield list(row), window(lo, hi)
+    elif route == "overlay":
+        left, t = param
+        top = AttrMap(SolidFill(TOP_MARK.decode()), "top")
+        ov = Overlay(top, Filler(Text(markup), valign="top"), align="left", width=t, valign="top", height=1, left=left)
+        (row,) = list(ov.render((total, 1)).content())
+        yield list(row), window(0, left) + [None] * t + window(left + t, total)
+    elif route == "padding-clip":
+        align, m = param
+        canv = Padding(Text(markup), align=align, width="clip").render((m,))
+        (row,) = list(canv.content())
+        yield list(row), {"left": [window(0, m)], "right": [window(width - m, width)], "center": [window(lo, lo + m) for lo in range(0, width - m + 1)]}[align]
+
+
+def clip_params(route, width, total):
+    if route in ("content", "composite"):
+        return [(lo, hi) for lo in range(0, total) for hi in range(lo + 1, total + 1)]
+    if route == "overlay":
+        return [(left, t) for t in (1, 2) for left in range(0, total - t + 1)]
+    return [(align, m) for align in ALIGNS for m in range(1, width)]
+
+
+def eval_clip_case(markup, enc, route, param):
+    """One view of one text row (encoding set by the caller).  Returns (ok, detail)."""
+    flat = ref_flatten(markup)
+    chars = [u for u, _ in flat]
+    ref = [a for _, a in flat]
+    forms = [form_of(ch, enc, False) for ch in chars]
+    owner, first = clip_grid(chars)
+    width = len(owner)
+    total = width + 1
+    detail = {"markup": repr(markup), "encoding": enc, "route": route, "param": repr(param)}
+    try:
+        views = list(clip_views(route, markup, width, total, param))
+    except Exception as e:  # noqa: BLE001
+        return False, detail | {"why": f"raised {type(e).__name__}: {e}"}
+    for row, plan in views:
+        plans = plan if plan and isinstance(plan[0], list) else [plan]
+        whys = [judge_clip_row(row, p, chars, ref, forms, owner, first) for p in plans]
+        if all(w is not None for w in whys):
+            return False, detail | {"row": repr(row), "why": whys[0] if len(whys) == 1 else f"no window of the text explains the row: {whys}"}
+    return True, detail
+
+
+CLIP_FAMILIES = ("distinct", "alternate-untagged", "alternate-untagged-odd", "two-runs")
+
+
+def clip_plan(tier):
+    """(encoding, alphabet, exhaustive length, number of seeded longer texts)"""
+    if tier == "quick":
+        return [("utf-8", "nwezs", 3, 30), ("euc-jp", "nws", 3, 10)]
+    return [("utf-8", "nwezs", 4, 400), ("euc-jp", "nws", 4, 100)]
+
+
+def _clip_task(args):
+    enc, batch = args
+    out = {"n": 0, "cut": 0, "failures": [], "samples": []}
+    old = get_encoding()
+    try:
+        set_encoding(enc)
+        CanvasCache.clear()
+        for classes in batch:
+            chars = list(text_of(classes))
+            owner, _first = clip_grid(chars)
+            width = len(owner)
+            if not width:
+                continue
+            for fam, markup in markups_for(chars, False, enc):
+                if fam.split("@")[0] not in CLIP_FAMILIES:
+                    continue
+                for route in CLIP_ROUTES:
+                    for param in clip_params(route, width, width + 1):
+                        ok, detail = eval_clip_case(markup, enc, route, param)
+                        out["n"] += 1
+                        if "w" in classes:
+                            out["cut"] += 1
+                        if len(out["samples"]) < 3:
+                            out["samples"].append({"classes": classes, "enc": enc, "family": fam, "route": route, "param": repr(param)})
+                        if not ok and len(out["failures"]) < FAIL_CAP:
+                            out["failures"].append(detail | {"classes": classes, "family": fam})
+    finally:
+        set_encoding(old)
+        CanvasCache.clear()
+    return out
+
+
+def run_clip_check(tier, r):
+    import multiprocessing
+
+    t0 = time.time()
+    tasks = []
+    texts = 0
+    for enc, alphabet, full_len, n_rand in clip_plan(tier):
+        items = [s for s in class_strings(alphabet, full_len) if s]
+        seen = set(items)
+        while n_rand > 0:
+            s = "".join(r.choice(alphabet) for _ in range(r.randint(full_len + 1, 6)))
+            if s in seen or not well_formed(s) or "w" not in s:
+                continue
+            seen.add(s)
+            items.append(s)
+            n_rand -= 1
+        texts += len(items)
+        step = 6 if tier == "quick" else 30
+        tasks += [(enc, items[i : i + step]) for i in range(0, len(items), step)]
+    procs = max(1, min(16, os.cpu_count() or 1))
+    if procs > 1:
+        with multiprocessing.get_context("fork").Pool(procs) as pool:
+            parts = pool.map(_clip_task, tasks, chunksize=1)
+    else:
+        parts = [_clip_task(t) for t in tasks]
+    plan = "; ".join(f"{e}: all class strings over {a!r} of length 1..{fl} + {nr} seeded with a double-width character of length <= 6" for e, a, fl, nr in clip_plan(tier))
+    note = (f"{texts} one-row str texts ({plan}) rendered at text width + 1; markup families: one attribute per character, alternate tagged/untagged (both phases), "
+            "two runs split at every position; routes: TextCanvas.content(trim_left=L, cols=R-L) and CompositeCanvas.pad_trim_left_right(-L, R-W) for EVERY window "
+            "0 <= L < R <= W; Overlay with a 1- and a 2-column top widget at every left offset; Padding(width='clip') x 3 alignments x every width below the text's")
+    chk = Check("C17/canvas-clip-attrs",
+                "every column window of a rendered text row (TextCanvas.content trim, CompositeCanvas trim, beside an Overlay, Padding 'clip'): each shown character carries the attribute of its innermost tag, "
+                "source spaces their own, padding None, and the one blank that stands for a double-width character cut by a window edge carries an attribute of THAT character (or of a zero-width character attached to it), never a neighbour's",
+                False, note)
+    chk.t0 = t0
+    cut = 0
+    for p in parts:
+        chk.evaluations += p["n"]
+        cut += p["cut"]
+        chk.failures += p["failures"][: FAIL_CAP - len(chk.failures)]
+        chk.samples += p["samples"][: 3 - len(chk.samples)]
+    chk.nontrivial = range(cut)  # views of texts that hold a double-width character (every case key is distinct by construction)
+    return [chk.result()]
 
 
 # ======================================================================================================
@@ -1266,6 +1509,7 @@ def run(tier="quick", seed=0):
     c1.bound = c1e.bound = "all trees leaf|(tag,T)|[T*0..3] of height <= 2 over 3 piece lists (str with wide/2-byte characters and newline; str with empty pieces; bytes), tags {'x','y',None}; tag chains of depth 1..3; seeded random trees of height <= 4 with falsy tags (0, '')"
     checks += [c1.result(), c1e.result()]
     checks += run_text_checks(tier, r)
+    checks += run_clip_check(tier, r)
     checks += run_chain_check(tier, r)
     checks += run_escape_check(tier, r)
     checks += run_palette_check(tier, r)
@@ -1293,6 +1537,15 @@ def replay(check_name, case):
             set_encoding(old)
             CanvasCache.clear()
             _plain_cache.clear()
+    elif check_name == "C17/canvas-clip-attrs":
+        old = get_encoding()
+        try:
+            set_encoding(case["encoding"])
+            CanvasCache.clear()
+            ok, d = eval_clip_case(ast.literal_eval(case["markup"]), case["encoding"], case["route"], ast.literal_eval(case["param"]))
+        finally:
+            set_encoding(old)
+            CanvasCache.clear()
     elif check_name == "C17/attr-map-compose":
         ok, d = eval_chain_case(_lit(case["base_markup"]), _lit(case["layers"]), case["width"], case["focus"])
     elif check_name == "C17/raw-attrspec-escape":
